@@ -112,6 +112,20 @@ def run_program(ctx: Ctx, seed: str, j: int, tier: str) -> None:
             nset = sum(1 for m in A if m)
             if nset >= 2 and has_adjacent_ws(em.source):
                 ctx.nt(em.source, sorted(em.partials.items()), trim, sup)
+            # (4) a marker trims exactly the whitespace adjacent to its own markup: the
+            # reference applies each (left, right) pair to the neighbouring text only
+            if got[0] == "ok" and (exhaustive or rng.random() < 0.25):
+                exp2 = c01.ref_render(prog, (trim, sup, False), data)
+                if exp2[0] == "ok":
+                    ctx.count("exact_trim_checks")
+                    if exp2[1] != got[1]:
+                        ctx.violation(
+                            f"ws-control:exact-text-differs:trim={trim}:suppress={'on' if sup else 'off'}",
+                            f"expected {exp2[1]!r} got {got[1]!r}",
+                            {"source": em.source, "partials": em.partials, "data": data,
+                             "cfg": [trim, sup, False], "base": ["ok", exp2[1]], "exact": True,
+                             "markers": list(A), "gen": [seed, j]})
+                        return
             if got[0] != "ok" or strip_ws(got[1]) != want:
                 key = _key(ctx, prog, data, A, trim, sup, want)
                 ctx.violation(key, f"expected (modulo whitespace) {want!r} got {got!r}",
@@ -206,7 +220,11 @@ def suppression_family(ctx: Ctx, spec: dict[str, Any]) -> None:
             n += 1
             if n % spec["n"] != spec["i"]:
                 continue
-            prog = M.Program([M.Text("<"), *_copy.deepcopy(body), M.Text(">")])
+            # what the (possibly blank) blocks assigned, captured and counted is printed
+            # after the nest: suppression must not lose side effects either
+            prog = M.Program([M.Text("<"), *_copy.deepcopy(body), M.Text(">"),
+                              M.Out(M.Filt(M.Var("cap1"))), M.Text("|"), M.Out(M.Filt(M.Var("z"))),
+                              M.Text("|"), M.Incr("c1")])
             em = E.emit(prog, E.Layout(random.Random(1)))
             outs = {}
             for sup in (True, False):
@@ -242,7 +260,7 @@ def shards(tier: str, seed: int) -> list[dict[str, Any]]:
 def floors(tier: str) -> dict[str, int]:
     k = 1 if tier == "quick" else 20
     return {"marker_assignments": 20000 * k, "programs_exhaustive": 100 * k, "suppression_pairs": 300 * k,
-            "verbatim_checks": 100 * k, "suppression_family_renders": 5000}
+            "verbatim_checks": 100 * k, "suppression_family_renders": 5000, "exact_trim_checks": 5000 * k}
 
 
 def run_shard(spec: dict[str, Any], ctx: Ctx) -> None:
